@@ -173,3 +173,103 @@ func (p *Prog) lpCodecByEvaluation(enc, dec *ssa.Function) (bad, unk string, n i
 	}
 	return "", "", n
 }
+
+// fillPropWriters: the functions that write into the buffer themselves among fillProp and the fill-family functions
+// of the library it reaches by static calls.  The co-simulation takes a fillProp event for "identifier, then the
+// value as fill encodes it": that holds when the only writers are fill methods of wire types (R1.4 pairs those with
+// the decoders).  A property writer with a body of its own (`fillTagged`) is an encoding nothing compares with fill.
+func (p *Prog) fillPropWriters(fp *ssa.Function) []*ssa.Function {
+	var out []*ssa.Function
+	seen := map[*ssa.Function]bool{}
+	var visit func(fn *ssa.Function, depth int)
+	visit = func(fn *ssa.Function, depth int) {
+		if fn == nil || seen[fn] || depth > 4 || len(fn.Blocks) == 0 {
+			return
+		}
+		seen[fn] = true
+		buf, _, _, _ := emissionsOf(p, fn)
+		if buf != nil && writesBufferDirectly(fn, buf) {
+			out = append(out, fn)
+		}
+		for _, b := range fn.Blocks {
+			for _, ins := range b.Instrs {
+				if call, ok := ins.(*ssa.Call); ok {
+					if sc := call.Call.StaticCallee(); sc != nil && p.inMQ(sc) && isFillFamily(sc) {
+						visit(sc, depth+1)
+					}
+				}
+			}
+		}
+	}
+	visit(fp, 0)
+	return out
+}
+
+// lpFillPropByEvaluation: fillProp of a length-prefixed type writes the identifier and then exactly what fill
+// writes, for lengths on both sides of the prefix's byte boundary; nothing for the empty value.
+func (p *Prog) lpFillPropByEvaluation(fill, fp *ssa.Function) (bad, unk string, n int) {
+	if fill == nil || fp == nil || len(fill.Params) != 3 || len(fp.Params) != 4 {
+		return "", "fill / fillProp of an unexpected signature", 0
+	}
+	content := func(k int64) int64 { return (k*5 + 1) & 0xff }
+	run := func(fn *ssa.Function, L int64, args func(val, buf sv) []sv) ([]int64, int64, string) {
+		ctx := p.newSym(p.globalInput())
+		for k := int64(0); k < L; k++ {
+			ctx.mem[fmt.Sprintf("VAL[%d]", k)] = sv{k: 'i', i: content(k)}
+		}
+		for k := int64(0); k < L+8; k++ {
+			ctx.mem[fmt.Sprintf("BUF[%d]", k)] = sv{k: 'i', i: 0x55}
+		}
+		rs, ok := ctx.evalPure(fn, args(sv{k: 's', i: L, addr: "VAL", b: L == 0}, sv{k: 's', i: L + 8, addr: "BUF"}), nil, 0)
+		if !ok || len(rs) != 1 || rs[0].k != 'i' {
+			return nil, 0, "cannot evaluate " + qname(fn) + ": " + ctx.why
+		}
+		out := make([]int64, L+8)
+		for k := int64(0); k < L+8; k++ {
+			cell := ctx.mem[fmt.Sprintf("BUF[%d]", k)]
+			if cell.k != 'i' {
+				return nil, 0, qname(fn) + ": an output byte is not determined"
+			}
+			out[k] = cell.i & 0xff
+		}
+		return out, rs[0].i, ""
+	}
+	for _, L := range []int64{0, 1, 2, 255, 256, 300, 3841} {
+		fb, fw, why := run(fill, L, func(val, buf sv) []sv { return []sv{val, buf, {k: 'i', i: 2}} })
+		if why != "" {
+			return "", why, n
+		}
+		pb, pw, why := run(fp, L, func(val, buf sv) []sv { return []sv{val, buf, {k: 'i', i: 1}, {k: 'i', i: 0x08}} })
+		if why != "" {
+			return "", why, n
+		}
+		if L == 0 {
+			if pw != 0 {
+				continue
+			}
+			for k := range pb {
+				if pb[k] != 0x55 {
+					return fmt.Sprintf("fillProp of the empty value reports 0 bytes but writes at buffer index %d", k), "", n
+				}
+			}
+			n++
+			continue
+		}
+		if pw != fw+1 {
+			return fmt.Sprintf("fillProp of a %d-byte value reports %d byte(s); the identifier and the %d byte(s) fill writes make %d", L, pw, fw, fw+1), "", n
+		}
+		if pb[1] != 0x08 {
+			return fmt.Sprintf("fillProp of a %d-byte value does not write the identifier first (byte %#02x)", L, pb[1]), "", n
+		}
+		for k := int64(0); k < fw; k++ {
+			if pb[2+k] != fb[2+k] {
+				return fmt.Sprintf("fillProp of a %d-byte value writes %#02x at byte %d after the identifier; fill writes %#02x there", L, pb[2+k], k, fb[2+k]), "", n
+			}
+		}
+		if pb[0] != 0x55 || pb[2+fw] != 0x55 {
+			return fmt.Sprintf("fillProp of a %d-byte value writes outside its %d byte(s)", L, pw), "", n
+		}
+		n++
+	}
+	return "", "", n
+}
